@@ -54,16 +54,19 @@ def run(tier, seed):
         if int(b) != i or "b" in b.name[1:]:
             R.fail("Note.from_int", "int-roundtrip", "from_int(%d) -> %r" % (i, b), i)
     # malformed names are rejected
-    for bad in ["H", "c", "Cx", "", "C-x", "C-4-4", "H-4", "#", "1"]:
+    for bad in ["H", "c", "Cx", "", "C-x", "C-4-4", "H-4", "#", "1", "C%", "100%", "C%s", "C%23-4", "%d", "C{}", "{0}-4",
+                "C\n", "C#\n", "Bb\n-3", " C", "C ", "#C", "bE", "b#Gb-4", "C#x", "Cmaj", "G4", "-4", ",,", "C\\", "C'"]:
         R.case("malformed", bad)
         try:
             Note(bad)
             R.fail("Note.__init__", "malformed-rejected", "accepted %r" % bad, bad)
         except (kex.NoteFormatError, cex.NoteFormatError):
             pass
-        except (IndexError, ValueError) as e:
-            if bad not in ("", "C-x"):
-                R.fail("Note.__init__", "malformed-rejected", "%r raised %s" % (bad, type(e).__name__), bad)
+        except Exception as e:  # noqa
+            # two old behaviours are left alone: the empty name (IndexError) and a non-numeric octave (ValueError)
+            if not (bad == "" and isinstance(e, IndexError)) and not (bad == "C-x" and isinstance(e, ValueError)):
+                R.fail("Note.__init__", "malformed-rejected", "%r raised %s instead of the note-format error"
+                       % (bad, type(e).__name__), bad)
     # Hz conversion: doubles per octave, A-4 at the standard pitch, note -> Hz -> note with detuning
     pitches = (415, 432, 440, 442, 466) if tier == "quick" else (400, 415, 430, 432, 435, 440, 442, 444, 452, 466)
     cents = range(-40, 41, 5) if tier == "quick" else range(-40, 41, 1)
